@@ -515,6 +515,125 @@ def check_vector_histogram(run, vsim, d):
     if got != exp:
         run.violation("hist:vector:counts", "gathered vector histogram %s differs from the weighted histogram of the components at the eligible steps %s" % (got, exp),
                       {"kind": "hist", "scenario": VECTOR_SCN, "expected": exp, "got": got})
+    return True
+
+
+def gen_vec_hist(r, k):
+    nvar = r.choice([1, 1, 2])
+    m = r.choice([1, 2])                      # atoms per variable: 3m components
+    size = 3 * m
+    vs = []
+    for d in range(nvar):
+        w = r.choice([1.0, 0.5, 0.25, 2.0])
+        vs.append({"lower": V.dyadic(r, -3, 3, bits=2), "w": w, "nx": r.randint(1, 6)})
+    for v in vs:
+        v["upper"] = v["lower"] + v["w"] * v["nx"]
+    wmode = r.random()
+    weights = None if wmode < 0.25 else [V.dyadic(r, 0, 4, bits=3) for _ in range(size)]
+    stepzero = r.random() < 0.3
+    events = []
+    for s_ in range(r.randint(4, 10)):
+        coords = []
+        for v in vs:
+            cs = []
+            for _ in range(size):
+                q = r.random()
+                if q < 0.35:
+                    cs.append(v["lower"] + r.randint(-2, v["nx"] + 2) * v["w"])
+                elif q < 0.85:
+                    cs.append(v["lower"] + r.randint(0, v["nx"] * 8 - 1) * v["w"] / 8 + v["w"] / 16)
+                else:
+                    cs.append(v["lower"] + r.choice([-1, 1]) * (v["w"] * v["nx"] + r.randint(1, 40) * v["w"] / 8))
+            coords.append(cs)
+        events.append(((s_ > 0) and r.random() < 0.2, coords))
+    return {"id": k, "vars": vs, "m": m, "weights": weights, "stepzero": stepzero, "events": events}
+
+
+def vec_scenario(c, statefile):
+    nvar, m = len(c["vars"]), c["m"]
+    L = ["natoms %d" % (nvar * m), "new", "config END"]
+    for d in range(nvar):
+        L += ["colvar {", "  name v%d" % d, "  cartesian {",
+              "    atoms { atomNumbers " + " ".join(str(d * m + a + 1) for a in range(m)) + " }", "  }", "}"]
+    L += ["histogram {", "  name h", "  colvars " + " ".join("v%d" % d for d in range(nvar)), "  gatherVectorColvars on"]
+    if c["weights"] is not None:
+        L += ["  weights " + " ".join("%r" % x for x in c["weights"])]
+    if c["stepzero"]:
+        L += ["  stepZeroData on"]
+    L += ["  histogramGrid {", "    lowerBoundary " + " ".join("%r" % v["lower"] for v in c["vars"]),
+          "    upperBoundary " + " ".join("%r" % v["upper"] for v in c["vars"]),
+          "    width " + " ".join("%r" % v["w"] for v in c["vars"]), "  }", "}", "END", "show atomf 0 energy 0 bias 0 cv 0"]
+    for boundary, coords in c["events"]:
+        for d in range(nvar):
+            for a in range(m):
+                x, y, z = coords[d][3 * a:3 * a + 3]
+                L.append("pos %d %s %s %s" % (d * m + a + 1, V.hexf(x), V.hexf(y), V.hexf(z)))
+        if boundary:
+            L.append("runboundary")
+        L.append("step")
+    L.append("save text %s" % statefile)
+    return "\n".join(L) + "\n"
+
+
+def vec_expected(c):
+    vs = c["vars"]
+    size = 3 * c["m"]
+    wts = c["weights"] if c["weights"] is not None else [1.0] * size
+    nt = 1
+    for v in vs:
+        nt *= v["nx"]
+    counts = [Fr(0)] * nt
+    rel, first = 0, True
+    mparts = ["HIST", "1", "1" if c["stepzero"] else "0", str(len(vs))] + [V.hexf(v["lower"]) for v in vs] + \
+             [V.hexf(v["w"]) for v in vs] + [str(v["nx"]) for v in vs] + [str(len(c["events"]))]
+    for boundary, coords in c["events"]:
+        if first:
+            first = False
+        elif not boundary:
+            rel += 1
+        mparts += [str(rel), "1" if boundary else "0", str(size)]
+        for iv in range(size):
+            mparts += [V.hexf(coords[d][iv]) for d in range(len(vs))] + [V.hexf(wts[iv])]
+        if not ((rel > 0 and not boundary) or c["stepzero"]):
+            continue
+        for iv in range(size):
+            a, ok = 0, True
+            for d, v in enumerate(vs):
+                i = floor_fr((fr(coords[d][iv]) - fr(v["lower"])) / fr(v["w"]))
+                if not (0 <= i < v["nx"]):
+                    ok = False
+                    break
+                a = a * v["nx"] + i
+            if ok:
+                counts[a] += fr(wts[iv])
+    return [float(x) for x in counts], " ".join(mparts)
+
+
+def check_vector_scenarios(run, r, vsim, model, d, n):
+    cs = [gen_vec_hist(r, k) for k in range(n)]
+    em = [vec_expected(c) for c in cs]
+    rc, mout, e = V.run_lines(model, [m for _, m in em])
+    for k, (c, (exp, mline)) in enumerate(zip(cs, em)):
+        sf, sc = os.path.join(d, "vh%d.state" % k), os.path.join(d, "vh%d.scn" % k)
+        scn = vec_scenario(c, sf)
+        open(sc, "w").write(scn)
+        rcv, o, ev = V.sh([vsim, sc], cwd=d, timeout=120)
+        run.count("vechist%d" % k, sum(exp) > 0)
+        run.dist("hist:vector:nvar=%d" % len(c["vars"]))
+        run.dist("hist:vector:weights=" + ("default" if c["weights"] is None else "given"))
+        if "CONFIG err=ok" not in o or not os.path.exists(sf):
+            run.mismatch("hist:vector:config", {"scenario": scn}, o[-300:], "accepted")
+            continue
+        got = parse_hist_state(sf)
+        if got != exp:
+            run.violation("hist:vector:counts", "gathered vector histogram %s differs from the weighted histogram %s of the components at the eligible steps (weights %s)" % (
+                got, exp, c["weights"]), {"kind": "hist", "scenario": scn, "expected": exp, "got": got})
+        mo = [float.fromhex(t) for t in mout[k].split()] if k < len(mout) else None
+        if mo != got:
+            run.mismatch("hist:vector:counts", {"scenario": scn, "model_case": mline}, got, mo)
+        for f in (sf, sc):
+            if os.path.exists(f):
+                os.remove(f)
 
 
 def setup():
@@ -531,7 +650,7 @@ def check(run):
                        "non-trivial = BIN on an edge or negative bin, ADDR/INCR with >=2 dims, RT, or a histogram with >=2 counted and >=1 rejected sample")
     run.assumptions += [
         "theorems are about the R instance of the model; the tie runs the float instance on dyadic inputs for which +,-,*,/ by the generated widths and floor are exact",
-        "vector-variable histograms (gatherVectorColvars) are rejected at initialisation by this build, so that branch of the model is not exercised by the tie",
+        "vector-variable histograms (gatherVectorColvars) are tied only on a tree where they can be configured (fix-C15); on a tree that rejects them at initialisation the finding is reported under its own signature and that branch of the model is not exercised",
     ]
     st = V.standard_start(run, PROP, "coq/C15/Extract_C15.v", "props/C15/driver.ml",
                           {"c15unit": ["props/C15/unit.cpp"], "vsim": ["harness/vsim_main.cpp"]})
@@ -621,7 +740,8 @@ def check(run):
             if os.path.exists(f):
                 os.remove(f)
     check_meta_states(run, V.rng("C15meta"), vsim, d, 6 if quick else 60)
-    check_vector_histogram(run, vsim, d)
+    if check_vector_histogram(run, vsim, d):
+        check_vector_scenarios(run, V.rng("C15vec"), vsim, model, d, 20 if quick else 300)
     run.cov["correspondence"].update({"unit_cases": len(cases), "hist_scenarios": len(hcases)})
 
 
